@@ -22,6 +22,7 @@ META = {
                     "prescribe which endpoints spin() polls",
                     "UDP part is reported as skipped (not held) if loopback sockets cannot be bound"],
 }
+REQUIRED_REACH = ['interfaces/comms_core.py:Comms.getData', 'interfaces/comms_core.py:Comms.spin', 'interfaces/comms_core.py:Comms.setForwardData', 'interfaces/comms_core.py:Comms.deleteForwardingRule', 'interfaces/comms_core.py:Comms.setDataSink', 'interfaces/comms_core.py:Comms.setDataSource', 'interfaces/comms_core.py:Comms.sendData']
 REQUIRED_CLAUSES = ["registration.return", "get.deliveries", "nodata.nothing", "spin.sources_once", "spin.deliveries", "fault.injected",
                     "exhaustive.sequences"]
 
